@@ -16,15 +16,49 @@ def _pres(t):
     return {x[1] for x in subterms(t) if x[0] == "pre"}
 
 
-def exc_price_level(den):
+def exc_price_level(den, F=None, s=None):
     """the denominator is a price itself: a window slot or the input, selected by conditions, with no arithmetic"""
     from terms import leaves
     return all(isinstance(l, tuple) and (l == ("arg", "a0") or l[0] == "get" or (l[0] == "select" and isinstance(l[1], tuple) and l[1][0] == "pre")) for _, l in leaves(den))
 
 
-def exc_weight_only(den):
-    """the denominator is built from the weight/count/period fields and constants only"""
-    return _pres(den) <= {"self.weight", "self.count", "self.period"} and bool(_pres(den))
+_counting = {}
+
+
+def counting_fields(F, s):
+    """state paths of `s` that only ever count calls: usize parameters and counters (typestate), and f64 fields whose every write
+    is a constant, the old value, or the old value + 1.0 (WMA's `weight`).  Computed from the post-terms, no names involved."""
+    k = (id(F), s)
+    if k in _counting:
+        return _counting[k]
+    import typestate
+    from terms import leaves
+    structs, classes = typestate.all_structs(F)
+    ts = structs[s]
+    out = set()
+    for f in F.struct_fields(s):
+        n, ty = f["name"], f["ty"]["s"]
+        if ty == "usize" and (classes[s].get(n) == "PARAM" or n in ts.counters):
+            out.add("self." + n)
+        elif ty == "f64" and classes[s].get(n) == "STATE":
+            pre = ("pre", "self." + n)
+            posts = [r["heap"].get("self." + n) for _, (fn, r) in ts.methods.items()]
+            posts = [t for t in posts if t is not None]
+            ints = {"self." + g["name"] for g in F.struct_fields(s) if g["ty"]["s"] == "usize" and (classes[s].get(g["name"]) == "PARAM" or g["name"] in ts.counters)}
+
+            def counting(l):
+                if l == pre or l[0] == "c" or l == ("+", pre, ("c", "f64", 1.0)):
+                    return True
+                return l[0] == "i2f" and bool(_pres(l[1])) and _pres(l[1]) <= ints
+            if posts and all(counting(l) for t in posts for _, l in leaves(t)):
+                out.add("self." + n)
+    _counting[k] = out
+    return out
+
+
+def exc_weight_only(den, F=None, s=None):
+    """the denominator is built from call-counting fields (weight / count / period) and constants only"""
+    return bool(_pres(den)) and _pres(den) <= counting_fields(F, s)
 
 
 # named exceptions: function label -> (predicate on the denominator term, reason). An exception that matches no unguarded division is reported as stale.
@@ -88,11 +122,11 @@ def apply(F, S, exceptions=EXCEPTIONS):
             S.ok("V1", inst, denominator=str(rec["visits"][0][1]), contexts=sorted({v[0] for v in rec["visits"]}))
             continue
         exc = exceptions.get(rec["fn"])
-        if exc and all(exc[0](d) for d in rec.get("den_terms", [])):
+        if exc and all(exc[0](d, F, unsafe[0][0]) for d in rec.get("den_terms", [])):
             used_exc.add(rec["fn"])
             S.ok("V1", inst, named_exception=exc[1], denominator=str(unsafe[0][1]))
             continue
-        S.bad("V1", "div-unguarded", "%s:%s" % (rec["fn"], rec["den"]),
+        S.bad("V1", "div-unguarded", "%s:%s" % (rec["fn"], invariants.origin_signature(F, unsafe[0][0], rec["den_terms"][0])),
               "%s divides by `%s` (= %s, interval %s in the context of %s) without a dominating zero guard: on a flat / zero-flow window this is 0/0 = NaN"
               % (rec["fn"], rec["den"], unsafe[0][2], unsafe[0][1], ", ".join(sorted({u[0] for u in unsafe}))), loc(rec["span"]))
     for fnl in exceptions:
@@ -128,7 +162,7 @@ def apply(F, S, exceptions=EXCEPTIONS):
             for at in eqs:
                 dep = sorted({x[1] for side in (at[1], at[2]) for x in _subterms(side) if x[0] == "pre" and x[1] in tot})
                 if dep:
-                    kk = "%s:%s" % (lab_, "+".join(d.split(".", 1)[1] for d in dep))
+                    kk = "%s:%s" % (lab_, invariants.origin_signature(F, s_, dep))
                     if kk in reported:
                         continue
                     reported.add(kk)
@@ -169,11 +203,12 @@ def apply(F, S, exceptions=EXCEPTIONS):
                         continue
                     dep = sorted({x[1] for side in sides for x in _subterms(side) if x[0] == "pre" and x[1] in totals})
                     inst = "%s: guard `%s == %s` returning %s" % (lab, show(atom[1])[:40], show(atom[2])[:40], leaf[2])
-                    if dep and "%s:%s" % (lab, "+".join(d.split(".", 1)[1] for d in dep)) in reported:
+                    kk = "%s:%s" % (lab, invariants.origin_signature(F, s, dep))
+                    if dep and kk in reported:
                         continue
                     if dep:
-                        reported.add("%s:%s" % (lab, "+".join(d.split(".", 1)[1] for d in dep)))
-                        S.bad("V4", "residue-prone-guard", "%s:%s" % (lab, "+".join(d.split(".", 1)[1] for d in dep)),
+                        reported.add(kk)
+                        S.bad("V4", "residue-prone-guard", kk,
                               "%s decides its degenerate-window arm (constant %s) by an exact equality on a quantity derived from the running total(s) %s: after earlier activity such totals keep rounding residue, the test fails on a flat window and the formula branch divides residue by residue"
                               % (lab, leaf[2], ", ".join(dep)), loc(fn.span))
                     else:
